@@ -81,6 +81,7 @@ def graph_fails(graph):
         if not spec.is_model(o):
             fails.append(f"toposort_all returns {o}, which is not a topological ordering")
             break
+    want_outs = [tuple(o) for o in outs]
     if len(set(map(tuple, outs))) != len(outs):
         fails.append("toposort_all returns an ordering twice")
     if sat:
@@ -94,7 +95,33 @@ def graph_fails(graph):
         fails.append(f"toposort returns {one} although the graph is {'acyclic' if sat else 'cyclic'}")
     elif one is not None and not spec.is_model(one):
         fails.append(f"toposort returns {one}, which is not a topological ordering")
+    # the caller owns what it gets: editing the returned orderings must not change what an equal call returns next
+    for o in outs:
+        o.reverse()
+        o.append(None)
+    again = toposort_all({k: set(v) for k, v in graph.items()})
+    if sorted(map(tuple, again)) != sorted(want_outs):
+        fails.append("toposort_all answers differently after the caller edited the lists of an earlier equal call")
+    # vertices that hash and compare by identity (plain objects): the orderings must consist of the caller's own vertex objects
+    objs = {k: _V(k) for k in graph}
+    og = {objs[k]: {objs[x] for x in v} for k, v in graph.items()}
+    oouts = toposort_all(og)
+    if sorted(tuple(getattr(x, "label", None) for x in o) for o in oouts) != sorted(want_outs) or any(x not in og for o in oouts for x in o):
+        fails.append("toposort_all on identity-hashed vertex objects does not return the orderings of the caller's vertices")
+    oone = toposort(og)
+    if (oone is not None) != sat or (oone is not None and (any(x not in og for x in oone) or not spec.is_model([x.label for x in oone]))):
+        fails.append("toposort on identity-hashed vertex objects does not return a valid ordering of the caller's vertices")
     return fails, nq
+
+
+class _V:
+    """A vertex that hashes and compares by identity."""
+
+    def __init__(self, label):
+        self.label = label
+
+    def __repr__(self):
+        return f"V({self.label})"
 
 
 def decode(n, bits):
